@@ -93,6 +93,11 @@ Proof. exact u256_div_exact. Qed.
 Theorem C20_quorem128_64 : forall u v, wf128 u -> inW v -> v <> 0 ->
   exists q r, u128_quorem64 u v = Ok (q, r) /\ wf128 q /\ val128 q = val128 u / v /\ r = val128 u mod v.
 Proof. exact u128_quorem64_exact. Qed.
+(* Uint128.QuoRem for every divisor (64-bit or 128-bit): total (no panic, no underflow of the trial remainder) and exact *)
+Theorem C20_quorem128 : forall u v, wf128 u -> wf128 v -> val128 v <> 0 ->
+  exists q r, u128_quorem u v = Ok (q, r) /\ wf128 q /\ wf128 r /\
+              val128 q = val128 u / val128 v /\ val128 r = val128 u mod val128 v.
+Proof. exact u128_quorem_exact. Qed.
 Theorem C20_div256_orig_refuted :
   exists u v, wf256 u /\ wf256 v /\ val256 v <> 0 /\ u256_div_orig u v = OutOfFuel.
 Proof. exact u256_div_orig_refuted. Qed.
@@ -189,6 +194,7 @@ Print Assumptions C20_mul128_refuted.
 Print Assumptions C20_mul256.
 Print Assumptions C20_div256.
 Print Assumptions C20_quorem128_64.
+Print Assumptions C20_quorem128.
 Print Assumptions C20_div256_orig_refuted.
 Print Assumptions C20_cmp64.
 Print Assumptions C20_cmp128.
